@@ -34,14 +34,24 @@ class RecEkf:
         self.config = SimpleNamespace(max_dt_sec=max_dt)
         self.control_size = control_size
 
+    # the state is a persistent (immutable) cons list of calls: O(1) per call, snapshots stay valid
     def process_model(self, dt, state, covariance, control=None):
-        return (state + (f"p {fbits(dt)}",), covariance)
+        tag = f"p {fbits(dt)}" if control in (None, "u") else f"p {fbits(dt)} c{control}"
+        return ((state, tag), covariance)
 
     def sensor_model(self, state, covariance, *, sensor_key, sensor_reading):
-        return (state + (f"s {sensor_key}",), covariance)
+        return ((state, f"s {sensor_key}"), covariance)
 
     def make_reading(self, key, **kwargs):
         return ("reading", key)
+
+
+def flatten(state):
+    out = []
+    while state:
+        state, call = state
+        out.append(call)
+    return out[::-1]
 
 
 def py_history(max_dt, t0, history, has_control=True):
@@ -53,13 +63,13 @@ def py_history(max_dt, t0, history, has_control=True):
         rs = [runtime.StampedReading(ts, i) for ts, i in t["readings"]]
         kw = {}
         if t.get("control", True):
-            kw["control"] = "u"
+            kw["control"] = t.get("control_id", "u")
         try:
             r = mf.tick(t["out"], readings=rs if (rs or t.get("with_list")) else None, **kw)
-            outs.append(list(r.state))
+            outs.append(flatten(r.state))
         except TypeError:
             outs.append("missing-control")
-    return {"outs": outs, "held_time": fbits(mf.current_time), "held": list(mf.state)}
+    return {"outs": outs, "held_time": fbits(mf.current_time), "held": flatten(mf.state)}
 
 
 def build_cpp(ctx) -> str | None:
@@ -83,7 +93,7 @@ def cpp_run(exe, jobs):
         for t in history:
             rs = " ".join(f"{fbits(ts)} {i}" for ts, i in t["readings"])
             wl = 1 if (t["readings"] or t.get("with_list")) else 0
-            lines.append(f"tick {fbits(t['out'])} {wl} {len(t['readings'])} {rs}".rstrip())
+            lines.append(f"tick {fbits(t['out'])} {wl} {t.get('control_id', 0) if isinstance(t.get('control_id', 0), int) else 0} {len(t['readings'])} {rs}".rstrip())
     r = subprocess.run([exe], input="\n".join(lines) + "\n", capture_output=True, text=True, timeout=600)
     if r.returncode != 0:
         raise RuntimeError("managed_trace failed: " + r.stderr[-500:])
